@@ -59,45 +59,7 @@ def run(ctx: Ctx) -> None:
             ctx.ob("C14.R1", f, loop, "no while-else", False, "while-else on the search loop")
 
         # ---- R2
-        is_gp = any(isinstance(c, ast.Call) and call_name(c) == "Population" for st in loop.body for c in ast.walk(st))
-        if is_gp:
-            pops = [c for st in loop.body for c in ast.walk(st) if isinstance(c, ast.Call) and call_name(c) == "Population"]
-            okp = False
-            for p_ in pops:
-                a0 = p_.args[0] if p_.args else None
-                if isinstance(a0, ast.Call) and call_name(a0) == "apply" and any(
-                        is_self_attr(x, "population_size") for x in a0.args) and any(
-                        is_self_attr(x, "tracker") for x in p_.args):
-                    okp = True
-            ctx.ob("C14.R2", f, pops[0], "GP body: Population(step.apply(..., population_size, ...), tracker)", okp,
-                   "" if okp else "the generation is not built from step.apply with the configured size and the tracker")
-            continue
-        for i, p_ in enumerate(paths(loop.body, unroll_loops=False)):
-            evals = [c for st in stmts_on(p_) for c in ast.walk(st) if isinstance(c, ast.Call)
-                     and call_name(c) == "evaluate" and isinstance(c.func, ast.Attribute) and is_self_attr(c.func.value, "tracker")]
-            ok2, why = False, "a path through the loop body evaluates nothing: the search can spin without progress"
-            size = None
-            if len(evals) == 1 and evals[0].args:
-                a = evals[0].args[0]
-                src = a
-                if isinstance(a, ast.Name):
-                    ds = [s for s in stmts_on(p_) if isinstance(s, ast.Assign) and isinstance(s.targets[0], ast.Name)
-                          and s.targets[0].id == a.id]
-                    src = ds[-1].value if ds else None
-                if isinstance(src, ast.List) and len(src.elts) == 1:
-                    size = "1"
-                    fresh = _fresh_individual(src.elts[0], p_)
-                elif isinstance(src, ast.ListComp):
-                    fresh = isinstance(src.elt, ast.Call) and call_name(src.elt) == "Individual"
-                    it = src.generators[0].iter
-                    size = _comp_size(it, p_)
-                else:
-                    fresh = False
-                ok2 = bool(fresh) and size is not None
-                why = "" if ok2 else "the evaluated batch is not a list of freshly created individuals of the stated size"
-            elif len(evals) > 1:
-                why = "several tracker.evaluate calls on one path"
-            ctx.ob("C14.R2", f, evals[0] if evals else loop, f"iteration path {i} evaluates a fresh batch of size {size}", ok2, why)
+        _search_model(ctx, f)
 
     # is_done delegation
     alg = prog.get_class(ALGORITHM)
@@ -112,74 +74,9 @@ def run(ctx: Ctx) -> None:
         ctx.ob("C14.R1", d, d.node, "is_done() == self.budget.is_done(self.tracker)", ok,
                "" if ok else "is_done does not delegate to the configured budget on the search's tracker")
 
-    # ---- R3 budget predicates
-    n3 = 0
-    for c in prog.subclasses(BUDGET):
-        d = c.methods.get("is_done")
-        if d is None:
-            continue
-        tr = d.params[1]
-        rets = [r for r in walk_local(d.node) if isinstance(r, ast.Return)]
-        body_calls = [x for x in walk_local(d.node) if isinstance(x, ast.Call)]
-        if any(call_name(x) == "get_number_evaluations" for x in body_calls):
-            n3 += 1
-            ok, why = False, "evaluation budget is not 'evaluations >= limit'"
-            if len(rets) == 1 and isinstance(rets[0].value, ast.Compare) and len(rets[0].value.ops) == 1:
-                cmp_ = rets[0].value
-                l, r, op = cmp_.left, cmp_.comparators[0], cmp_.ops[0]
-                def is_count(e): return isinstance(e, ast.Call) and call_name(e) == "get_number_evaluations"
-                def is_limit(e): return is_self_attr(e)
-                if is_count(l) and is_limit(r):
-                    ok = isinstance(op, ast.GtE)
-                    if isinstance(op, ast.Gt):
-                        why = "'>' stops one budget check late (n evaluations do not stop the search)"
-                    elif isinstance(op, ast.Eq):
-                        why = "'==' may never hold when a batch jumps over the limit: the search does not terminate"
-                elif is_limit(l) and is_count(r):
-                    ok = isinstance(op, ast.LtE)
-            ctx.ob("C14.R3", d, rets[0] if rets else d.node, "EvaluationBudget.is_done == (evaluations >= limit)", ok, "" if ok else why)
-        elif len(rets) == 1 and isinstance(rets[0].value, ast.BoolOp):
-            n3 += 1
-            bo = rets[0].value
-            members = [v for v in bo.values if isinstance(v, ast.Call) and call_name(v) == "is_done"
-                       and v.args and isinstance(v.args[0], ast.Name) and v.args[0].id == tr]
-            attrs = {v.func.value.attr for v in members if is_self_attr(v.func.value)}
-            init = c.methods.get("__init__")
-            stored = {a.targets[0].attr for a in walk_local(init.node) if isinstance(a, ast.Assign)
-                      and is_self_attr(a.targets[0])} if init else set()
-            ok = isinstance(bo.op, ast.Or) and len(members) == len(bo.values) == 2 and attrs == stored and len(attrs) == 2
-            ctx.ob("C14.R3", d, rets[0], "AnyOf.is_done == a.is_done(tracker) or b.is_done(tracker)", ok,
-                   "" if ok else ("a conjunction stops only when both budgets are met" if isinstance(bo.op, ast.And)
-                                  else "the disjunction does not consult both member budgets on the given tracker"))
-        elif any(call_name(x) == "get_best_individual" for x in body_calls):
-            n3 += 1
-            # False while there is no best; compares component [0] of the best with self.<value> within a tolerance
-            none_guard = False
-            for st in d.node.body:
-                if isinstance(st, ast.If) and isinstance(st.test, ast.Compare) and isinstance(st.test.ops[0], ast.Is) \
-                        and isinstance(st.test.comparators[0], ast.Constant) and st.test.comparators[0].value is None:
-                    r0 = [x for x in st.body if isinstance(x, ast.Return)]
-                    none_guard = bool(r0) and isinstance(r0[0].value, ast.Constant) and r0[0].value.value is False
-            ctx.ob("C14.R3", d, d.node, "TargetFitness.is_done is False while there is no best individual", none_guard,
-                   "" if none_guard else "no 'best is None -> False' guard")
-            cmps = [x for x in walk_local(d.node) if isinstance(x, ast.Compare) and isinstance(x.left, ast.Call)
-                    and call_name(x.left) == "abs"]
-            okc = False
-            why = "no |component - target| < tolerance comparison"
-            first = [x for x in cmps if any(isinstance(s, ast.Subscript) and isinstance(s.slice, ast.Constant)
-                                            and s.slice.value == 0 for s in ast.walk(x.left))]
-            if first:
-                x = first[0]
-                diff = x.left.args[0]
-                okc = isinstance(diff, ast.BinOp) and isinstance(diff.op, ast.Sub) and isinstance(x.ops[0], (ast.Lt, ast.LtE)) \
-                    and any(is_self_attr(z) for z in ast.walk(diff)) and isinstance(x.comparators[0], ast.Constant)
-                if not okc:
-                    why = f"comparison is '{norm(x)}'"
-                # the component must come from the *best* individual's fitness for the tracker's problem
-                src_ok = any(call_name(z) == "get_fitness" for z in body_calls)
-                okc = okc and src_ok
-            ctx.ob("C14.R3", d, first[0] if first else d.node, "TargetFitness compares best.fitness_components[0] with the target within a tolerance",
-                   okc, "" if okc else why)
+    # ---- R3 budget predicates: every SearchBudget.is_done is interpreted (sa/modelinterp, helpers inlined) against a
+    # scripted tracker
+    n3 = _budget_models(ctx)
     ctx.floor("C14.R3", n3, 3, "budget predicates (evaluation, any-of, target)")
 
     # counter plumbing: tracker.get_number_evaluations -> evaluator.number_of_evaluations
@@ -198,6 +95,208 @@ def run(ctx: Ctx) -> None:
     n4 = process_state_rule(ctx, "C14.R4", ("geneticengine.evaluation", "geneticengine.algorithms.api", "geneticengine.algorithms.heuristics"))
     ctx.ob("C14.R4", None, None, "evaluation modules scanned for process-level state", True, f"{n4} candidate sites", module="geneticengine/evaluation")
     ctx.assumptions += ["every fitness evaluation terminates", "GP: the configured step yields individuals (C15)"]
+
+
+def _search_model(ctx: Ctx, f: FunctionInfo) -> None:
+    """search() of a heuristic search interpreted with a budget that says 'not done' three times and then 'done':
+    between two consecutive budget checks tracker.evaluate receives a non-empty list of individuals that were created
+    (Individual(...)) from a freshly created / mutated genotype since the previous check and were never evaluated before;
+    after the budget is met nothing more is evaluated."""
+    from ..modelinterp import Budget, Effect, Interp, Sym, UNKNOWN, _NONE
+    cls = f.cls
+    state = {"checks": 0, "k": 0, "evaluated": [], "created": {}}
+
+    def reset():
+        state.update(checks=0, k=0, evaluated=[], created={})
+
+    def call_model(it, call, env, args, kwargs):
+        nm = call_name(call)
+        if nm == "is_done" and is_self_attr(call.func):
+            state["checks"] += 1
+            it.trace.append(Effect("call", "is_done", (), {}, node=call))
+            return state["checks"] > 3
+        if nm in ("create_genotype", "mutate") and isinstance(call.func, ast.Attribute):
+            state["k"] += 1
+            return Sym(f"geno{state['k']}")
+        if nm == "Individual" and isinstance(call.func, ast.Name):
+            state["k"] += 1
+            g = kwargs.get("genotype", args[0] if args else UNKNOWN)
+            t = f"ind{state['k']}"
+            state["created"][t] = g
+            it.heap[(t, "genotype")] = g
+            return Sym(t)
+        if nm == "evaluate" and isinstance(call.func, ast.Attribute) and is_self_attr(call.func.value, "tracker"):
+            batch = args[0] if args else UNKNOWN
+            it.trace.append(Effect("call", "evaluate", (list(batch) if isinstance(batch, list) else batch,), {}, node=call))
+            return _NONE
+        if nm in ("apply", "initialize") and isinstance(call.func, ast.Attribute) and not is_self_attr(call.func):
+            recv = it.ev(call.func.value, env, 9)
+            if isinstance(recv, Sym) and recv.tag in ("step", "initializer"):
+                size = next((a for a in reversed(args) if isinstance(a, int) and not isinstance(a, bool) and a > 0), None)
+                out = []
+                for _ in range(size or 0):
+                    state["k"] += 1
+                    out.append(Sym(f"ind{state['k']}"))
+                return out
+        if nm == "Population" and isinstance(call.func, ast.Name):
+            src = args[0] if args else kwargs.get("individuals", UNKNOWN)
+            trk = args[1] if len(args) > 1 else kwargs.get("tracker")
+            if isinstance(trk, Sym) and trk.tag == "tracker":
+                it.trace.append(Effect("call", "evaluate", (list(src) if isinstance(src, list) else src,), {}, node=call))
+            return src if isinstance(src, list) else UNKNOWN
+        if nm in ("get_best_individual",):
+            ev = [x for x in state["evaluated_syms"]] if "evaluated_syms" in state else []
+            first = next((e.args[0][0] for e in it.trace if e.kind == "call" and e.name == "evaluate" and isinstance(e.args[0], list) and e.args[0]), None)
+            return first if first is not None else Sym("best")
+        return None
+
+    it = Interp(ctx.prog, cls, lambda *_: None, call_model, max_depth=4, max_traces=16)
+    it.on_start = reset
+    env = {"self": Sym("self"), "self.number_of_mutations": 3, "self.representation": Sym("representation"), "self.random": Sym("random"),
+           "self.tracker": Sym("tracker"), "self.problem": Sym("problem"), "self.population_size": 2, "self.step": Sym("step"),
+           "self.population_initializer": Sym("initializer")}
+    try:
+        runs = it.run(f, env)
+    except Budget:
+        ctx.ob("C14.R2", f, f.node, f"{cls.name}.search: every iteration evaluates fresh individuals", None, "too many interpretations")
+        return
+    bad = und = None
+    sizes = set()
+    for trace, rv, notes in runs:
+        if any(e.kind == "raise" for e in trace):
+            und = und or "a path raises"
+            continue
+        seen_inds: set = set()
+        since_check: list = []
+        checks = 0
+        for e in trace:
+            if e.kind != "call":
+                continue
+            if e.name == "is_done":
+                if checks >= 1 and checks <= 3 and not since_check and bad is None:
+                    bad = f"iteration {checks} evaluates nothing before the next budget check: the search can spin without progress"
+                checks += 1
+                since_check = []
+            elif e.name == "evaluate":
+                b = e.args[0]
+                if checks > 3 and bad is None:
+                    bad = "individuals are evaluated after the budget check said the search is done"
+                if not isinstance(b, list):
+                    und = und or "the evaluated batch is not followed"
+                    continue
+                if not b and bad is None:
+                    bad = f"iteration {checks} hands an empty batch to the tracker"
+                for x in b:
+                    if not (isinstance(x, Sym) and x.tag.startswith("ind")):
+                        if bad is None:
+                            bad = f"iteration {checks} evaluates {x!r}, which is not an individual created in this search"
+                    elif x.tag in seen_inds and bad is None:
+                        bad = f"iteration {checks} evaluates {x!r} again: no new individual, the evaluation count does not advance"
+                    else:
+                        seen_inds.add(x.tag)
+                since_check.append(len(b))
+                sizes.add(len(b))
+        if checks < 4:
+            und = und or f"only {checks} budget checks were reached in the model"
+    ctx.ob("C14.R2", f, f.node, f"{cls.name}.search: between two budget checks a non-empty batch of newly created individuals is evaluated; nothing after 'done'",
+           False if bad else (None if und else True), bad or und or "", witness={"batch_sizes": sorted(sizes)})
+
+
+def _budget_models(ctx: Ctx) -> int:
+    from ..modelinterp import Budget, Effect, Interp, Obj, Sym, UNKNOWN, _NONE
+    prog = ctx.prog
+    n3 = 0
+    for c in prog.subclasses(BUDGET):
+        d = prog.lookup_method(c, "is_done")
+        if d is None or d.cls is None or d.cls.fullname == BUDGET:
+            continue
+        init = prog.lookup_method(c, "__init__")
+        calls = {call_name(x) for g in [d] for x in ast.walk(g.node) if isinstance(x, ast.Call)}
+        iparams = [p_ for p_ in (init.params[1:] if init else [])]
+
+        def run_case(tracker_model: dict, self_env: dict):
+            def call_model(it, call, env, args, kwargs):
+                nm = call_name(call)
+                recv = it.ev(call.func.value, env, 9) if isinstance(call.func, ast.Attribute) else None
+                if isinstance(recv, Sym) and recv.tag == "tracker" and nm in tracker_model:
+                    v = tracker_model[nm]
+                    return _NONE if v is None else v
+                if nm == "is_done" and isinstance(recv, Sym) and recv.tag.startswith("member"):
+                    it.trace.append(Effect("call", "member.is_done", tuple(args), {}, node=call, recv=recv))
+                    return tracker_model[recv.tag]
+                if nm == "get_fitness" and isinstance(recv, Sym) and recv.tag == "best":
+                    return tracker_model["fitness"]
+                return None
+            it = Interp(prog, c, lambda *_: None, call_model, max_depth=4, max_traces=8)
+            env = {"self": Sym("self"), d.params[1]: Sym("tracker")}
+            env.update({"self." + k: v for k, v in self_env.items()})
+            try:
+                runs = it.run(d, env)
+            except Budget:
+                return None, []
+            vals = {rv for tr, rv, _ in runs if not any(e.kind == "raise" for e in tr)}
+            traces = [tr for tr, rv, _ in runs]
+            return (next(iter(vals)) if len(vals) == 1 else UNKNOWN), traces
+
+        # which attribute does __init__ store its (single) parameter in?
+        stored = {}
+        if init is not None:
+            for a in walk_local(init.node):
+                if isinstance(a, ast.Assign) and is_self_attr(a.targets[0]):
+                    stored[a.targets[0].attr] = a.value
+        if "get_number_evaluations" in calls and len(stored) == 1:
+            n3 += 1
+            attr = next(iter(stored))
+            bad = und = None
+            for n_, want in ((9, False), (10, True), (11, True), (25, True)):
+                rv, _ = run_case({"get_number_evaluations": n_}, {attr: 10})
+                if rv is UNKNOWN or rv is None:
+                    und = und or "result not followed"
+                elif bool(rv) != want and bad is None:
+                    bad = (f"with a limit of 10 and {n_} evaluations is_done is {rv}: " +
+                           ("the search runs on although the budget is used up (a batch can jump over the limit: with '==' it never stops)" if want else
+                            "the search stops before the budget is used"))
+            ctx.ob("C14.R3", d, d.node, f"{c.name}.is_done == (evaluations >= limit)", False if bad else (None if und else True), bad or und or "")
+        elif len(stored) == 2 and all(isinstance(v, ast.Name) for v in stored.values()) and "is_done" in calls:
+            n3 += 1
+            a_, b_ = list(stored)
+            bad = und = None
+            for va in (False, True):
+                for vb in (False, True):
+                    rv, traces = run_case({"member_a": va, "member_b": vb}, {a_: Sym("member_a"), b_: Sym("member_b")})
+                    if rv is UNKNOWN or rv is None:
+                        und = und or "result not followed"
+                    elif bool(rv) != (va or vb) and bad is None:
+                        bad = (f"with member budgets done = ({va}, {vb}) is_done is {rv}: " +
+                               ("a conjunction stops only when both budgets are met" if (va or vb) else "it stops although neither budget is met"))
+                    for tr in traces:
+                        for e in tr:
+                            if e.kind == "call" and e.name == "member.is_done" and not (e.args and e.args[0] == Sym("tracker")) and bad is None:
+                                bad = "a member budget is consulted on something other than the tracker given to is_done"
+            ctx.ob("C14.R3", d, d.node, f"{c.name}.is_done == a.is_done(tracker) or b.is_done(tracker)", False if bad else (None if und else True), bad or und or "")
+        elif "get_best_individual" in calls and len(stored) == 1:
+            n3 += 1
+            attr = next(iter(stored))
+            bad = und = None
+            rv, _ = run_case({"get_best_individual": None, "get_problem": Sym("problem")}, {attr: 5.0})
+            if rv is not False:
+                if rv is UNKNOWN or rv is None:
+                    und = "result not followed (no best individual)"
+                else:
+                    bad = f"while there is no best individual is_done is {rv}"
+            ctx.ob("C14.R3", d, d.node, f"{c.name}.is_done is False while there is no best individual", False if bad else (None if und else True), bad or und or "")
+            bad = und = None
+            for comp, agg, want in ((5.0, -5.0, True), (5.00005, -5.00005, True), (6.0, -6.0, False), (-5.0, 5.0, False), (4.0, 5.0, False)):
+                fit = Obj("Fitness", {"maximizing_aggregate": agg, "fitness_components": [comp]})
+                rv, _ = run_case({"get_best_individual": Sym("best"), "get_problem": Sym("problem"), "fitness": fit}, {attr: 5.0})
+                if rv is UNKNOWN or rv is None:
+                    und = und or "result not followed"
+                elif bool(rv) != want and bad is None:
+                    bad = (f"target 5.0, best individual with fitness component {comp} (maximising aggregate {agg}): is_done is {rv}, expected {want} - "
+                           f"the target is compared with something other than the best individual's first fitness component within the tolerance")
+            ctx.ob("C14.R3", d, d.node, f"{c.name} compares best.fitness_components[0] with the target within a tolerance", False if bad else (None if und else True),
+                   bad or und or "")
+    return n3
 
 
 def _in_nested_loop(x: ast.AST, loop: ast.AST) -> bool:
